@@ -59,12 +59,24 @@ def _make_scenario(sc):
     def fork_of():
         return getattr(tl, 'f', 0)
 
+    class CodedSrcError(SrcError):
+        """what the source fails with: a class whose constructor signature differs from its args, raised from a cause"""
+
+        def __init__(self, code, msg):
+            super().__init__(msg)
+            self.code = code
+
+    def same_failure(e):
+        """is `e` the source's exception: its class, its args and attributes, its cause"""
+        return (type(e) is CodedSrcError and e.args == ('source failed',) and getattr(e, 'code', None) == 7
+                and type(e.__cause__) is ConnectionResetError and e.__cause__.args == ('peer',))
+
     def source():
         # a generator: after it has raised, further next() calls give StopIteration
         for k in range(1, n + 2):
             if srcfail and k == srcfail:
                 detsched.emit('SrcRaise', f=fork_of())
-                raise SrcError('source failed')
+                raise CodedSrcError(7, 'source failed') from ConnectionResetError('peer')
             if k > n:
                 break
             detsched.emit('Pull', f=fork_of(), i=k)
@@ -134,8 +146,12 @@ def _make_scenario(sc):
                 except StopIteration:
                     detsched.emit('End', f=f, how='stop')
                     return
-                except SrcError:
-                    detsched.emit('End', f=f, how='exc')
+                except SrcError as e:
+                    detsched.emit('End', f=f, how='exc' if same_failure(e) else 'exc-not-the-sources')
+                    return
+                except BaseException as e:  # noqa: BLE001
+                    # a fork must end by exhaustion or with the source's exception - nothing else
+                    detsched.emit('End', f=f, how='unexpected', exc=repr(e)[:200])
                     return
                 detsched.emit('Yield', f=f, x=x if isinstance(x, int) else -1)
 
